@@ -82,6 +82,8 @@ pub struct Plan {
     pub xref_stream: Option<u32>,
     /// kind Free only: the object exists in the first revision and is deleted by an incremental update
     pub freed_by_update: bool,
+    /// freed_by_update only: 0 = both sections classic tables, 1 = the update is a cross-reference stream, 2 = both sections are
+    pub update_format: u8,
     pub free_gen: u16,
     pub labels: Vec<&'static str>,
 }
@@ -101,14 +103,17 @@ pub fn plan_after(last_used: u32, kind: Dangling, s: &mut Src) -> Plan {
     if xstream { labels.push("xref-stream"); }
     if freed_by_update { labels.push("freed-by-update"); }
     let last = last_used + if xstream { 1 } else { 0 };
+    let update_format = if freed_by_update { s.alt(2, &["update-in-table", "update-in-xref-stream", "both-sections-xref-streams"]) as u8 } else { 0 };
     let (dangling, size, filler) = match kind {
+        // freed by update: dangling = last+1, the cross-reference streams (if any) take last+2 and last+3
+        Dangling::Free if freed_by_update => (last + 1, last + 4, 0),
         Dangling::Free => (last + 1, last + 2, 0),
         Dangling::Gap => { let width = [1u32, 3][s.draw(2) as usize]; (last + 1, last + 1 + width + 1, last + 1 + width) }
         Dangling::AtSize => (last + 1, last + 1, 0),
         Dangling::BeyondSize => { let off = [1u32, 2, 1000, 70000][s.draw(4) as usize]; (last + 1 + off, last + 1, 0) }
     };
     let free_gen: u16 = if s.draw(4) == 3 { 65535 } else { 1 };
-    Plan { n_store: 0, container: 0, kind, dangling, size, filler, xref_stream: if xstream { Some(last_used + 1) } else { None }, freed_by_update, free_gen, labels }
+    Plan { n_store: 0, container: 0, kind, dangling, size, filler, xref_stream: if xstream { Some(last_used + 1) } else { None }, freed_by_update, update_format, free_gen, labels }
 }
 
 pub fn write(pl: &Plan, store_objs: &[(u32, Obj)], container: &Obj) -> Vec<u8> {
@@ -124,7 +129,7 @@ pub fn write(pl: &Plan, store_objs: &[(u32, Obj)], container: &Obj) -> Vec<u8> {
 
 /// write an object table with the dangling arrangement of `pl`; `trailer` = trailer entries without /Size and /Prev
 pub fn write_table(pl: &Plan, objs: &[(u32, Obj)], trailer: Vec<(Vec<u8>, Obj)>) -> Vec<u8> {
-    let mut w = W::new(b"", if pl.xref_stream.is_some() { "1.5" } else { "1.4" });
+    let mut w = W::new(b"", if pl.xref_stream.is_some() || pl.update_format > 0 { "1.5" } else { "1.4" });
     let mut all: Vec<(u32, Obj)> = objs.to_vec();
     if pl.filler != 0 { all.push((pl.filler, mkpdf::dict(vec![("Filler", Obj::Bool(true))]))); }
     if pl.freed_by_update {
@@ -132,10 +137,10 @@ pub fn write_table(pl: &Plan, objs: &[(u32, Obj)], trailer: Vec<(Vec<u8>, Obj)>)
         w.free(0, 0, 65535);
         for (nr, o) in &all { w.obj(*nr, 0, o); }
         w.obj(pl.dangling, 0, &mkpdf::dict(vec![("Deleted", mkpdf::st("this object was removed by the update"))]));
-        w.xref_table(trailer.clone(), pl.size, &[]);
+        if pl.update_format == 2 { w.xref_stream(pl.dangling + 1, trailer.clone(), pl.size, &[], &mkpdf::flate_filter); } else { w.xref_table(trailer.clone(), pl.size, &[]); }
         w.free(0, pl.dangling, 65535);
-        w.free(pl.dangling, 0, 1);
-        w.xref_table(trailer, pl.size, &[]);
+        w.free(pl.dangling, 0, pl.free_gen);
+        if pl.update_format >= 1 { w.xref_stream(pl.dangling + 2, trailer, pl.size, &[], &mkpdf::flate_filter); } else { w.xref_table(trailer, pl.size, &[]); }
         return w.buf;
     }
     if pl.kind == Dangling::Free { w.free(0, pl.dangling, 65535); w.free(pl.dangling, 0, pl.free_gen); } else { w.free(0, 0, 65535); }
